@@ -115,6 +115,8 @@ def props_for(side: str, cls: str, rule: str) -> set:
         p |= {"C13"}
     if rule in ("RESULT",):
         p |= {"C07"}
+    if cls in ("SkipUntil", "OptimizedChoice", "OptimizedChoiceRepeat", "RegexExpression") and rule in ("TERM", "POS", "RAISE", "R1", "R2", "K2"):
+        p.add("C02")
     if not p:
         p.add("C01" if gen else "C03")
     return p
